@@ -434,8 +434,53 @@ def r7_usable_after_a_refusal(repo=None):
     return r
 
 
+def r8_newest_file_over_all_directories(repo=None):
+    """'the reader merges directories': the file reported as last written is the newest candidate in whichever top-level directory
+    holds it.  get_last_write walks candidate file names (newest first) and top-level directories and returns at the first
+    readable one - so the loop over the candidates has to be the outer one; with the directories outside, the first directory
+    that holds any candidate wins and the answer depends on the order the directories were given in."""
+    r = Rule("C11.R8", "get_last_write reports the newest file over all top-level directories (candidate loop outside, directory loop inside)")
+    m = pyfront.mod("digital_rf_hdf5", repo)
+    q = "DigitalRFReader.get_last_write"
+    f = m.flat(q).fn()
+    rets = [x for x in ast.walk(f) if isinstance(x, ast.Return) and isinstance(x.value, ast.Tuple) and any(
+        isinstance(c, ast.Call) and pyfront.call_name(c) == "os.path.getmtime" for c in ast.walk(x.value))]
+    if len(rets) != 1:
+        raise AnalysisError("%s: the `return (mtime, path)` of a found file was not found exactly once (%d)" % (q, len(rets)))
+    parents = {}
+    for n in ast.walk(f):
+        for ch in ast.iter_child_nodes(n):
+            parents[ch] = n
+    loops = []
+    p_ = parents.get(rets[0])
+    while p_ is not None:
+        if isinstance(p_, ast.For):
+            loops.append(p_)
+        p_ = parents.get(p_)
+    if len(loops) != 2:
+        raise AnalysisError("%s: expected the early return inside two nested loops (candidates x directories), found %d" % (q, len(loops)))
+    inner, outer = loops
+
+    def is_dirs(lp):
+        return "_top_level_dir" in ast.unparse(lp.iter)
+    if is_dirs(inner) and not is_dirs(outer):
+        r.ok("%s:%s %s" % (m.rel, outer.lineno, q), "for every candidate file (newest first) all top-level directories are probed before "
+             "the next candidate (`for %s in %s: for %s in %s`)" % (norm(ast.unparse(outer.target)), norm(ast.unparse(outer.iter))[:30],
+                                                                     norm(ast.unparse(inner.target)), norm(ast.unparse(inner.iter))[:40]))
+    elif is_dirs(outer) and not is_dirs(inner):
+        r.violation(m.rel, q, "for %s in %s: for %s in %s: ... return" % (norm(ast.unparse(outer.target)), norm(ast.unparse(outer.iter))[:40],
+                                                                      norm(ast.unparse(inner.target)), norm(ast.unparse(inner.iter))[:30]),
+                    "the loop over the top-level directories is the outer one: the first directory that holds any of the candidate "
+                    "files wins, so with the newest file in a directory given later an older file is reported, and the answer "
+                    "depends on the order of the directories", line=outer.lineno)
+    else:
+        raise AnalysisError("%s: roles of the two loops around the early return not recognised" % q)
+    r.guard(1)
+    return r
+
+
 def rules(repo=None):
-    return [lambda: r7_usable_after_a_refusal(repo), lambda: r1_compare_all(repo), lambda: r2_refused_session_no_effect(repo), lambda: r3_never_replace(repo),
+    return [lambda: r8_newest_file_over_all_directories(repo), lambda: r7_usable_after_a_refusal(repo), lambda: r1_compare_all(repo), lambda: r2_refused_session_no_effect(repo), lambda: r3_never_replace(repo),
             lambda: r4_reader_all_directories(repo), lambda: r5_bounds_merge(repo), lambda: r6_existence_test_in_current_subdir(repo)]
 
 
